@@ -1592,6 +1592,39 @@ func ruleI18(c *Ctx) {
 		}
 		ord := 0
 		eachInstr(fn, func(in ssa.Instruction) {
+			// time.Duration.Abs saturates: Abs(MinInt64) is MaxInt64, one nanosecond short
+			if call, ok := in.(*ssa.Call); ok {
+				cal := call.Call.StaticCallee()
+				if cal == nil || fnPkgPath(cal) != "time" || cal.Name() != "Abs" || cal.Signature.Recv() == nil || len(call.Call.Args) != 1 {
+					return
+				}
+				n++
+				ord++
+				key := fmt.Sprintf("%s: absolute value of a duration #%d", fnName(fn), ord)
+				min := int64(math.MinInt64)
+				x := call.Call.Args[0]
+				for {
+					if cv, ok := x.(*ssa.ChangeType); ok {
+						x = cv.X
+						continue
+					}
+					if cv, ok := x.(*ssa.Convert); ok {
+						x = cv.X
+						continue
+					}
+					break
+				}
+				dom := newRepDomain(c.P, min, 0)
+				dom.addConstsOf(fn)
+				dom.reps[min], dom.reps[min+1] = true, true
+				set, _ := dom.valueSetAt(x, call.Block(), map[ssa.Value]bool{}, 0)
+				if !set[min] {
+					c.ok(key, c.P.Pos(call.Pos()), "the most negative duration cannot reach Abs")
+				} else {
+					c.viol(key, c.P.Pos(call.Pos()), "time.Duration.Abs is applied where the duration can still be the most negative one: Abs saturates at the largest duration, so the result is one nanosecond short and (t - d) + d is no longer t")
+				}
+				return
+			}
 			u, ok := in.(*ssa.UnOp)
 			if !ok || u.Op != token.SUB {
 				return
